@@ -10,7 +10,10 @@ the evidence): the library (`xt::Translator` -- its calls are recorded in a ghos
 What is proved (loop invariant, i.e. at every loop head, hence at every later exit and at normal return):
   * C14: the i-th translate call received `from == match -f { Some(f) => Some(f), None => extension_format(path_i) }`
     -- precedence -f > extension > detection (None), resolved afresh for every input; stdin appears at most once
-    among the inputs that were translated (a second `-` is refused before anything is read);
+    among the inputs that were translated (a second `-` is refused before anything is read); `impl From<PathBuf> for
+    InputPath` (verbatim): an argument is standard input exactly when it is EQUAL (std's path equality, assumed
+    uninterpreted) to the path `-`, any other argument is that file -- `ends_with` / `starts_with` carry uninterpreted
+    specs of their own, so `./-` or `dir/-` read as stdin fails the postcondition instead of being undecided;
   * C03: exactly one translate call per path the iterator produced, in iterator order, all on the ONE translator created
     before the loop; every call so far returned Ok (a failure leaves through process::exit);
   * C15: nothing is pending in the translator at a loop head: every finished input has been flushed (flush returned Ok)
@@ -226,6 +229,25 @@ pub mod lexopt {
 }
 #[verifier::external_type_specification] #[verifier::external_body] pub struct ExOsString(std::ffi::OsString);
 pub assume_specification [<std::path::PathBuf as std::convert::From<std::ffi::OsString>>::from] (s: std::ffi::OsString) -> std::path::PathBuf;
+// ---- std::path as far as `impl From<PathBuf> for InputPath` (and its plausible variants) touches it: ASSUMED, uninterpreted ----
+#[verifier::external_type_specification] #[verifier::external_body] pub struct ExPath(std::path::Path);
+pub uninterp spec fn path_of<'a, S: ?Sized>(s: &'a S) -> &'a std::path::Path;        // Path::new(s)
+pub uninterp spec fn pb_path<'a>(p: &'a std::path::PathBuf) -> &'a std::path::Path;  // the path a PathBuf holds
+pub uninterp spec fn path_eq(a: &std::path::Path, b: &std::path::Path) -> bool;       // std's component-wise equality
+pub uninterp spec fn path_ends_with(a: &std::path::Path, b: &std::path::Path) -> bool;
+pub uninterp spec fn path_starts_with(a: &std::path::Path, b: &std::path::Path) -> bool;
+pub assume_specification<'a, S: AsRef<std::ffi::OsStr> + ?Sized> [std::path::Path::new::<S>] (s: &'a S) -> (r: &'a std::path::Path)
+    ensures r == path_of(s);
+pub assume_specification<'a> [<std::path::PathBuf as PartialEq<&'a std::path::Path>>::eq] (a: &std::path::PathBuf, b: &&std::path::Path) -> (r: bool)
+    ensures r == path_eq(pb_path(a), *b);
+pub assume_specification<'a> [<std::path::PathBuf as std::ops::Deref>::deref] (p: &'a std::path::PathBuf) -> (r: &'a std::path::Path)
+    ensures r == pb_path(p);
+// variants a maintainer might reach for instead of `==` (uninterpreted relations: nothing links them to path equality)
+pub uninterp spec fn as_path_of<P>(p: &P) -> &std::path::Path;
+pub assume_specification<P: AsRef<std::path::Path>> [std::path::Path::ends_with::<P>] (a: &std::path::Path, child: P) -> (r: bool)
+    ensures r == path_ends_with(a, as_path_of(&child));
+pub assume_specification<P: AsRef<std::path::Path>> [std::path::Path::starts_with::<P>] (a: &std::path::Path, base: P) -> (r: bool)
+    ensures r == path_starts_with(a, as_path_of(&base));
 #[verifier::external_body]
 const fn version_string() -> &'static str { "xt" }
 #[verifier::external_body]
@@ -286,8 +308,6 @@ impl fmt::Display for LexoptError { #[verifier::external_body] fn fmt(&self, f: 
 impl fmt::Display for xt::Format { #[verifier::external_body] fn fmt(&self, f: &mut fmt::Formatter<'_>) -> fmt::Result { unimplemented!() } }
 impl fmt::Display for xt::Error { #[verifier::external_body] fn fmt(&self, f: &mut fmt::Formatter<'_>) -> fmt::Result { unimplemented!() } }
 impl fmt::Display for InputPath { #[verifier::external_body] fn fmt(&self, f: &mut fmt::Formatter<'_>) -> fmt::Result { unimplemented!() } }
-#[verifier::external]
-impl From<PathBuf> for InputPath { fn from(path: PathBuf) -> Self { unimplemented!() } }
 #[verifier::external]
 impl<I> Iterator for InputPaths<I>
 where
@@ -352,7 +372,7 @@ ITEMS = [
     dict(src='repo:src/lib.rs', kind='enum', name='Format', keep_attrs=False, wrap=('    #[derive(Copy, Clone)]', '')),
     dict(raw=XT_REST),
     dict(src='repo:src/main.rs', kind='struct', name='Cli'),
-    dict(src='repo:src/main.rs', kind='enum', name='InputPath'),
+    dict(src='repo:src/main.rs', kind='enum', name='InputPath', wrap=('pub', '')),   # `pub` added in the generated file only: the contract of the (public) trait method `from` names its constructors
     dict(src='repo:src/main.rs', kind='enum', name='Input'),
     dict(src='repo:src/main.rs', kind='enum', name='InputPaths'),
     dict(raw='impl Cli {'),
@@ -363,6 +383,10 @@ ITEMS = [
                        rewrites=[dict(find=r'parse_with\s*\(\s*try_parse_format\s*\)', to=PARSE_WITH),
                                  # (inside verus! the elided lifetime of a local const is not inferred)
                                  dict(find=r'const\s+VERSION\s*:\s*&\s*str', to="exec const VERSION: &'static str")])),
+    dict(raw='}\nimpl vstd::std_specs::convert::FromSpecImpl<PathBuf> for InputPath {\n    open spec fn obeys_from_spec() -> bool { false }\n    open spec fn from_spec(p: PathBuf) -> InputPath { InputPath::Stdin }\n}\nimpl From<PathBuf> for InputPath {'),
+    # C14: an argument is standard input exactly when it IS the path `-` (std's path equality), every other argument is that file
+    dict(src='repo:src/main.rs', kind='fn', name='from', within_impl=r'\bimpl\s+From\s*<PathBuf>\s+for\s+InputPath\b',
+         contract=dict(ret='r', spec='ensures (r is Stdin) == path_eq(pb_path(&path), path_of::<str>("-")), r matches InputPath::File(p) ==> p == path,')),
     dict(raw='}\nimpl InputPath {'),
     dict(src='repo:src/main.rs', kind='fn', name='open', within_impl=r'\bimpl\s+InputPath\b', mode='external_body', contract=dict(ret='r', spec=OPEN_SPEC)),
     dict(src='repo:src/main.rs', kind='fn', name='extension_format', within_impl=r'\bimpl\s+InputPath\b', mode='external_body', contract=dict(ret='r', spec=EXT_SPEC)),
